@@ -198,6 +198,7 @@ type prover struct {
 	retBusy        map[retKey]bool
 	used           []string
 	grew           bool
+	rewriterIface  *types.Interface
 	callIdx        map[*ssa.Function][]ssa.CallInstruction
 	asValue        map[*ssa.Function]bool
 	taint          bool // something was derived without facts that will be available later: do not cache
@@ -931,6 +932,10 @@ func substEdge(t term, blk *ssa.BasicBlock, i int) term {
 
 // collect gathers the facts valid at `at` for a goal over a and b
 func (p *prover) collect(fn *ssa.Function, at ssa.Instruction, a, b term, hyp []hypF, direct bool) (*factSet, map[term]bool) {
+	return p.collectMulti(fn, at, []term{a, b}, hyp, direct)
+}
+
+func (p *prover) collectMulti(fn *ssa.Function, at ssa.Instruction, goalTerms []term, hyp []hypF, direct bool) (*factSet, map[term]bool) {
 	s := &factSet{}
 	seen := map[term]bool{}
 	for _, h := range hyp {
@@ -957,15 +962,23 @@ func (p *prover) collect(fn *ssa.Function, at ssa.Instruction, a, b term, hyp []
 			}
 		}
 	}
-	p.defs(s, a, seen, 0)
-	p.defs(s, b, seen, 0)
+	for _, gt := range goalTerms {
+		p.defs(s, gt, seen, 0)
+	}
 	p.edgeFacts(s, fn, at, seen)
 	p.structFacts(s, fn, at, seen)
 	// conditional post-conditions
-	for round := 0; round < 2; round++ {
+	done := map[term]bool{}
+	for round := 0; round < 6; round++ {
 		var ts []term
 		for t := range seen {
-			ts = append(ts, t)
+			if !done[t] || round == 1 {
+				ts = append(ts, t)
+			}
+			done[t] = true
+		}
+		if len(ts) == 0 {
+			break
 		}
 		sort.Slice(ts, func(i, j int) bool { return termKey(ts[i]) < termKey(ts[j]) })
 		for _, t := range ts {
@@ -1001,8 +1014,9 @@ func (p *prover) collect(fn *ssa.Function, at ssa.Instruction, a, b term, hyp []
 					s.eq(t, d, 0)
 				}
 			}
-			// summaries of module callees
+			// summaries of module callees, interface contracts
 			p.summaryFacts(s, t, seen)
+			p.contractFacts(s, t, seen)
 		}
 	}
 	return s, seen
@@ -1132,7 +1146,21 @@ func (p *prover) prove(fn *ssa.Function, at ssa.Instruction, a, b term, c int64,
 			return true
 		}
 	}
-	// parameters: push the goal to every call site
+	// parameters: push the goal to every call site (param + k is peeled to param)
+	if pa, ka := peel(a); true {
+		pb, kb := peel(b)
+		if pa != a || pb != b {
+			// a - b <= c  with a = pa + ka, b = pb + kb   <=>   pa - pb <= c - ka + kb
+			if p.goalOverParams(fn, pa, pb) {
+				p.depth++
+				ok := p.prove(fn, at, pa, pb, c-ka+kb, hyp)
+				p.depth--
+				if ok {
+					return true
+				}
+			}
+		}
+	}
 	if p.goalOverParams(fn, a, b) {
 		sites, ok := p.knownCallers(fn)
 		if ok && len(sites) > 0 {
@@ -1307,11 +1335,71 @@ func (p *prover) invariants(fn *ssa.Function) []hypF {
 	return inv
 }
 
-// proveFlat: facts only (no induction, no interprocedural search)
+// proveFlat: facts and case analysis over the phis of join blocks (no interprocedural search)
 func (p *prover) proveFlat(fn *ssa.Function, at ssa.Instruction, a, b term, c int64, hyp []hypF) bool {
+	return p.proveSplit(fn, at, a, b, c, hyp, 0)
+}
+
+func (p *prover) proveSplit(fn *ssa.Function, at ssa.Instruction, a, b term, c int64, hyp []hypF, d int) bool {
+	return p.proveSplitX(fn, at, a, b, c, hyp, d, map[*ssa.Phi]bool{})
+}
+
+func (p *prover) proveSplitX(fn *ssa.Function, at ssa.Instruction, a, b term, c int64, hyp []hypF, d int, split map[*ssa.Phi]bool) bool {
 	p.steps++
-	s, _ := p.collect(fn, at, a, b, hyp, true)
-	return implies(s, a, b, c)
+	s, seen := p.collect(fn, at, a, b, hyp, true)
+	if implies(s, a, b, c) {
+		return true
+	}
+	if d >= 4 {
+		return false
+	}
+	// case analysis over the phi of a join block (not a loop header) that the goal or the facts mention:
+	// the phi equals one of its incoming values
+	var phis []*ssa.Phi
+	for t := range seen {
+		if t.v == nil || t.isLn {
+			continue
+		}
+		if phi, ok := t.v.(*ssa.Phi); ok && !split[phi] && isIntType(phi.Type()) && !isLoopHeader(phi.Block()) &&
+			(phi.Block() == at.Block() || phi.Block().Dominates(at.Block())) && len(phi.Edges) <= 6 {
+			phis = append(phis, phi)
+		}
+	}
+	sort.Slice(phis, func(i, j int) bool { return termKey(valT(phis[i])) < termKey(valT(phis[j])) })
+	if len(phis) > 3 {
+		phis = phis[:3]
+	}
+	for _, phi := range phis {
+		split[phi] = true
+		okAll := true
+		for _, e := range phi.Edges {
+			h2 := append(append([]hypF{}, hyp...), hypF{fact{valT(phi), valT(e), 0}, nil}, hypF{fact{valT(e), valT(phi), 0}, nil})
+			if !p.proveSplitX(fn, at, a, b, c, h2, d+1, split) {
+				okAll = false
+				break
+			}
+		}
+		delete(split, phi)
+		if okAll {
+			return true
+		}
+	}
+	if dbg := os.Getenv("SLOGCHECK_F6LEAF"); dbg != "" && strings.Contains(anchorName(fn), dbg) {
+		fmt.Printf("F6LEAF %s blk%d: %s - %s <= %d\n", anchorName(fn), at.Block().Index, termStr(a), termStr(b), c)
+		for _, f := range s.fs {
+			fmt.Printf("      %s\n", linStr(f))
+		}
+	}
+	return false
+}
+
+func isLoopHeader(blk *ssa.BasicBlock) bool {
+	for _, pr := range blk.Preds {
+		if blk == pr || blk.Dominates(pr) {
+			return true
+		}
+	}
+	return false
 }
 
 // candidates: for every integer phi, bounds suggested by the function's own comparisons, constants, lengths and parameters
@@ -1358,7 +1446,17 @@ func (p *prover) candidates(fn *ssa.Function) []cand {
 		y   ssa.Value
 	}
 	var cmps []cmpT
+	var consts []int64
+	constSeen := map[int64]bool{}
 	eachInstr(fn, func(in ssa.Instruction) {
+		if bo, ok := in.(*ssa.BinOp); ok && (bo.Op == token.ADD || bo.Op == token.SUB) {
+			for _, o := range []ssa.Value{bo.X, bo.Y} {
+				if k, ok := constInt(o); ok && k > 1 && k <= 64 && !constSeen[k] && len(consts) < 8 {
+					constSeen[k] = true
+					consts = append(consts, k)
+				}
+			}
+		}
 		switch x := in.(type) {
 		case *ssa.Call:
 			if isBuiltin(x, "len") && isSeqType(x.Call.Args[0].Type()) {
@@ -1437,12 +1535,15 @@ func (p *prover) candidates(fn *ssa.Function) []cand {
 					}
 				}
 			}
-			// lengths
+			// lengths (minus the small constants the function mentions)
 			for _, sq := range seqs {
 				if validAt(sq, blk) {
 					l := term{v: sq, isLn: true}
 					add(blk, t, l, 0)
 					add(blk, t, l, -1)
+					for _, k := range consts {
+						add(blk, t, l, -k)
+					}
 				}
 			}
 			// integer parameters
@@ -1560,13 +1661,18 @@ func (p *prover) preconds(fn *ssa.Function) []fact {
 
 // ---- summaries of integer results of module functions
 
+// retFact:  coefRet*ret + sum(coef_i * x_i) <= c  where x_i is a parameter or the length of a parameter
 type retFact struct {
-	// ret - other <= c  (retFirst)  or  other - ret <= c
-	retFirst bool
-	kind     int // 0: other = zero, 1: other = len(param[idx]), 2: other = param[idx]
-	idx      int
-	c        int64
-	except   []int64 // the fact does not hold when the result is one of these constants
+	coefRet int64
+	ops     []retOp
+	c       int64
+	except  []int64 // the fact does not hold when the result is one of these constants
+}
+
+type retOp struct {
+	isLen bool
+	idx   int
+	coef  int64
 }
 
 type retKey struct {
@@ -1599,51 +1705,70 @@ func (p *prover) retSummary(callee *ssa.Function, ridx int) []retFact {
 	defer delete(p.retBusy, k)
 	savedTaint := p.taint
 	p.taint = false
-	type cnd struct {
-		retFirst bool
-		kind     int
-		idx      int
-		c        int64
-	}
-	var cnds []cnd
-	cnds = append(cnds, cnd{false, 0, 0, 0}, cnd{false, 0, 0, 1}) // ret >= 0, ret >= -1
-	for i, prm := range callee.Params {
-		if isSeqType(prm.Type()) {
-			cnds = append(cnds, cnd{true, 1, i, 0}, cnd{true, 1, i, -1})
-		}
-		if isIntType(prm.Type()) {
-			cnds = append(cnds, cnd{true, 2, i, 0}, cnd{false, 2, i, 0}, cnd{true, 2, i, 1}, cnd{false, 2, i, 1}, cnd{false, 2, i, -1}, cnd{true, 2, i, -1})
-		}
-	}
-	var out []retFact
-	p.depth++
-	for _, cd := range cnds {
-		var other term
-		switch cd.kind {
-		case 1:
-			other = term{v: callee.Params[cd.idx], isLn: true}
-		case 2:
-			other = term{v: callee.Params[cd.idx]}
-		}
+	// holds(cd): the candidate holds at every return (constant results that fail become exceptions)
+	holds := func(cd retFact) (bool, []int64) {
 		var except []int64
-		ok := true
 		for _, rv := range rets {
-			a, b := valT(rv.Val), other
-			if !cd.retFirst {
-				a, b = other, valT(rv.Val)
+			l := newLin(cd.c)
+			l.addF(valT(rv.Val), cd.coefRet)
+			for _, o := range cd.ops {
+				if o.isLen {
+					l.addF(term{v: callee.Params[o.idx], isLn: true}, o.coef)
+				} else {
+					l.addF(term{v: callee.Params[o.idx]}, o.coef)
+				}
 			}
-			if p.prove(callee, rv.At, a, b, cd.c, nil) {
+			if p.proveLin(callee, rv.At, l) {
 				continue
 			}
 			if kk, isK := constInt(rv.Val); isK {
 				except = append(except, kk)
 				continue
 			}
-			ok = false
-			break
+			return false, nil
 		}
-		if ok && len(except) < len(rets) {
-			out = append(out, retFact{cd.retFirst, cd.kind, cd.idx, cd.c, except})
+		return len(except) < len(rets), except
+	}
+	var out []retFact
+	try := func(cd retFact) bool {
+		if ok, ex := holds(cd); ok {
+			cd.except = ex
+			out = append(out, cd)
+			return true
+		}
+		return false
+	}
+	p.depth++
+	try(retFact{coefRet: -1, c: 0}) // ret >= 0
+	try(retFact{coefRet: -1, c: 1}) // ret >= -1
+	for i, prm := range callee.Params {
+		if isSeqType(prm.Type()) {
+			if !try(retFact{coefRet: 1, ops: []retOp{{true, i, -1}}, c: -1}) { // ret <= len(s) - 1
+				try(retFact{coefRet: 1, ops: []retOp{{true, i, -1}}, c: 0}) // ret <= len(s)
+			}
+		}
+		if isIntType(prm.Type()) {
+			// tightest  ret <= x + d  and  ret >= x + d  for small d
+			for d := int64(-1); d <= 10; d++ {
+				if try(retFact{coefRet: 1, ops: []retOp{{false, i, -1}}, c: d}) {
+					break
+				}
+			}
+			for d := int64(10); d >= -1; d-- {
+				if try(retFact{coefRet: -1, ops: []retOp{{false, i, 1}}, c: -d}) {
+					break
+				}
+			}
+			// ret <= x + len(s) + d
+			for j, q := range callee.Params {
+				if isSeqType(q.Type()) {
+					for d := int64(0); d <= 10; d++ {
+						if try(retFact{coefRet: 1, ops: []retOp{{false, i, -1}, {true, j, -1}}, c: d}) {
+							break
+						}
+					}
+				}
+			}
 		}
 	}
 	p.depth--
@@ -1652,7 +1777,54 @@ func (p *prover) retSummary(callee *ssa.Function, ridx int) []retFact {
 	}
 	p.retCache[k] = retEntry{out, p.taint, p.gen}
 	p.taint = p.taint || savedTaint
+	if dbg := os.Getenv("SLOGCHECK_F6INV"); dbg != "" && strings.Contains(anchorName(callee), dbg) {
+		fmt.Printf("F6RET %s#%d: %d facts\n", anchorName(callee), ridx, len(out))
+		for _, f := range out {
+			fmt.Printf("   %+v\n", f)
+		}
+	}
 	return out
+}
+
+// proveLin: a general linear goal, by the facts at `at` only (plus invariants and preconditions)
+func (p *prover) proveLin(fn *ssa.Function, at ssa.Instruction, goal lin) bool {
+	p.steps++
+	var a, b term
+	n := 0
+	for t := range goal.t {
+		if n == 0 {
+			a = t
+		} else if n == 1 {
+			b = t
+		}
+		n++
+	}
+	if n <= 2 && (n == 0 || goal.t[a] == 1 || goal.t[a] == -1) && (n < 2 || goal.t[b] == -goal.t[a]) {
+		// a difference goal: use the full prover (induction, callees, callers)
+		switch {
+		case n == 0:
+			return 0 <= goal.c
+		case n == 1 && goal.t[a] == 1:
+			return p.prove(fn, at, a, zeroT(), goal.c, nil)
+		case n == 1:
+			return p.prove(fn, at, zeroT(), a, goal.c, nil)
+		case goal.t[a] == 1:
+			return p.prove(fn, at, a, b, goal.c, nil)
+		default:
+			return p.prove(fn, at, b, a, goal.c, nil)
+		}
+	}
+	s := &factSet{}
+	seen := map[term]bool{}
+	var ts []term
+	for t := range goal.t {
+		ts = append(ts, t)
+	}
+	sort.Slice(ts, func(i, j int) bool { return termKey(ts[i]) < termKey(ts[j]) })
+	s2, _ := p.collectMulti(fn, at, ts, nil, false)
+	_ = s
+	_ = seen
+	return impliesLin(s2, goal)
 }
 
 // summaryFacts adds what is known about t when it is (an extracted component of) the result of a module call
@@ -1688,26 +1860,62 @@ func (p *prover) summaryFacts(s *factSet, t term, seen map[term]bool) {
 		if skip {
 			continue
 		}
-		var other term
-		switch rf.kind {
-		case 1:
-			if rf.idx >= len(cl.Common().Args) {
-				continue
+		l := newLin(rf.c)
+		l.addF(t, rf.coefRet)
+		okArgs := true
+		for _, o := range rf.ops {
+			if o.idx >= len(cl.Common().Args) {
+				okArgs = false
+				break
 			}
-			other = lenT(cl.Common().Args[rf.idx])
-		case 2:
-			if rf.idx >= len(cl.Common().Args) {
-				continue
+			var other term
+			if o.isLen {
+				other = lenT(cl.Common().Args[o.idx])
+			} else {
+				other = valT(cl.Common().Args[o.idx])
 			}
-			other = valT(cl.Common().Args[rf.idx])
+			l.addF(other, o.coef)
+			p.defs(s, other, seen, 1)
 		}
-		if rf.retFirst {
-			s.le(t, other, rf.c)
-		} else {
-			s.le(other, t, rf.c)
+		if okArgs {
+			s.fs = append(s.fs, l)
 		}
-		p.defs(s, other, seen, 1)
 	}
+}
+
+// peel: t = base + k for a chain of additions/subtractions of constants
+func peel(t term) (term, int64) {
+	if t.v == nil || t.isLn {
+		return t, 0
+	}
+	k := int64(0)
+	v := t.v
+	for i := 0; i < 6; i++ {
+		bo, ok := v.(*ssa.BinOp)
+		if !ok {
+			break
+		}
+		if kk, ok := constInt(bo.Y); ok && bo.Op == token.ADD {
+			k += kk
+			v = valT(bo.X).v
+			continue
+		}
+		if kk, ok := constInt(bo.Y); ok && bo.Op == token.SUB {
+			k -= kk
+			v = valT(bo.X).v
+			continue
+		}
+		if kk, ok := constInt(bo.X); ok && bo.Op == token.ADD {
+			k += kk
+			v = valT(bo.Y).v
+			continue
+		}
+		break
+	}
+	if v == t.v {
+		return t, 0
+	}
+	return term{v: v}, k
 }
 
 func (p *prover) goalOverParams(fn *ssa.Function, ts ...term) bool {
